@@ -80,6 +80,11 @@ def run_impl(case):
             w, V = s.eigs(k)
             out["w"] = np.asarray(w, dtype=float).tolist()
             out["V"] = np.asarray(V, dtype=float).T.tolist()
+            # the Solver object after the call: its matrices are unchanged and a second call gives the same eigenvalues
+            A2, B2 = s.stiffness.toarray().astype(float), s.mass.toarray().astype(float)
+            out["solver_unchanged"] = bool(np.array_equal(A2, A) and np.array_equal(B2, B))
+            w2, _V2 = s.eigs(k)
+            out["w_again"] = np.asarray(w2, dtype=float).tolist()
         except Exception as e:
             out["w"] = core.errkind(e) + ":" + str(e)[:100]
         if not isinstance(out["w"], str):
@@ -104,6 +109,21 @@ def coq_case(case, out):
     return "(%s, %s, %s, %s, %s)" % (tol, mesh, core.cbool(case["lump"]), core.cflist(out["w"]), cols)
 
 
+def deg_wc_pre(case, out, sc):
+    """witness class of F18 (cluster of >= 4 equal reference eigenvalues reaching into the requested range)"""
+    allref = np.array(out["ref"])
+    k = out["k"]
+    i0 = 0
+    while i0 < len(allref):
+        j0 = i0
+        while j0 + 1 < len(allref) and abs(allref[j0 + 1] - allref[i0]) <= 1e-9 * (sc + abs(allref[i0])):
+            j0 += 1
+        if j0 - i0 + 1 >= 4 and i0 < k:
+            return "degenerate_multiplicity_ge4"
+        i0 = j0 + 1
+    return None
+
+
 def oracle(case, out):
     V = []
     def bad(clause, detail, wc=None):
@@ -124,21 +144,35 @@ def oracle(case, out):
     if len(w) != k:
         bad("returns_k_pairs", f"{len(w)} vs {k}")
         return V
+    if out.get("solver_unchanged") is False:
+        bad("solver_matrices_unchanged_by_eigs", "stiffness / mass of the Solver differ after eigs()")
+    if "w_again" in out and len(out["w_again"]) == len(w) and np.abs(np.sort(out["w_again"]) - np.sort(w)).max() > (5e-3 if f32 else 1e-6) * sc:
+        bad("eigs_repeatable_on_the_same_solver", f"second call {np.sort(out['w_again']).tolist()} first {np.sort(w).tolist()}", deg_wc_pre(case, out, sc))
     if out.get("res_rel", 0) > (5e-3 if f32 else 1e-6):
         bad("pairs_satisfy_eigen_equation", f"max relative residual {out['res_rel']}")
     if out.get("orth_err", 0) > (5e-3 if f32 else 1e-6):
         bad("eigenvectors_B_orthonormal", f"max |V^T B V - I| = {out['orth_err']}", "several_components" if case["ncomp"] > 1 else None)
     if np.any(np.diff(w) < -1e-8 * sc):
         bad("eigenvalues_ascending", f"{w.tolist()}")
+    # clusters of (numerically) equal reference eigenvalues reaching into the requested range: Lanczos with a single start
+    # vector is known to miss copies of exactly degenerate eigenvalues of high multiplicity (known finding F18)
+    hi_mult = False
+    i0 = 0
+    while i0 < len(allref):
+        j0 = i0
+        while j0 + 1 < len(allref) and abs(allref[j0 + 1] - allref[i0]) <= 1e-9 * (sc + abs(allref[i0])):
+            j0 += 1
+        if j0 - i0 + 1 >= 4 and i0 < k:
+            hi_mult = True
+        i0 = j0 + 1
+    deg_wc = "degenerate_multiplicity_ge4" if hi_mult else None
     if np.abs(np.sort(w) - ref).max() > (5e-3 if f32 else 1e-5) * sc:
-        bad("k_smallest_agree_with_dense_reference", f"returned {np.sort(w).tolist()} reference {ref.tolist()}",
-            ("congruent_components_ge4" if case["ncomp"] >= 4 else "congruent_components") if case["family"] == "congruent_copies" else None)
+        bad("k_smallest_agree_with_dense_reference", f"returned {np.sort(w).tolist()} reference {ref.tolist()}", deg_wc)
     ztol = (5e-3 if f32 else 1e-6) * sc
     nz_ref = int(np.sum(np.abs(np.array(out["ref"])) < ztol))
     if nz_ref == case["ncomp"] and k >= case["ncomp"]:
         if int(np.sum(np.abs(w) < ztol)) != case["ncomp"]:
-            bad("one_zero_eigenvalue_per_component", f"{int(np.sum(np.abs(w) < ztol))} zeros for {case['ncomp']} components",
-                "congruent_components_ge4" if (case["family"] == "congruent_copies" and case["ncomp"] >= 4) else None)
+            bad("one_zero_eigenvalue_per_component", f"{int(np.sum(np.abs(w) < ztol))} zeros for {case['ncomp']} components", deg_wc)
         else:
             # zero modes are constant on components
             comps = components(len(case["v"]), case["t"])
